@@ -668,16 +668,11 @@ _EXOTIC_KIND = {"String": "string", "Enum": "string", "Integer": "integer", "Lon
 
 
 def exotic_leaf_value(rng, kind):
-    """A native of an unusual but legitimate type for a leaf-like of this kind (scalars_g6.random_exotic), as case JSON.
-    `bytes` are not handed to temporal kinds (KF-C04-e: Temporal.adapt raises TypeError on them; C04's subject)."""
+    """A native of an unusual but legitimate type for a leaf-like of this kind (scalars_g6.random_exotic), as case JSON
+    (bytes / bytearray handed to temporal kinds too: unadaptable since repair 6d1d953 of KF-C04-e)."""
     bk = _EXOTIC_KIND.get(kind["type"])
-    temporal = bk in ("date", "time", "datetime")
     for _ in range(20):
         x = S.random_exotic(rng, {"k": bk} if bk and rng.random() < 0.8 else None, pads=S.SAFE_PADS)
-        if temporal and type(x) is bytes:
-            continue
-        if kind["type"] == "DateYMD" and type(x) in (bytes, bytearray):
-            continue
         j = S.py_to_nat(x)
         if j is not None and j["t"] in S.EXOTIC_TAGS + ("other",):
             return {"x": j}
@@ -825,7 +820,7 @@ class C03(Property):
         "texts, scalar natives, None; other iterables and dict-likes (custom classes with keys()/items()) are not generated",
         "12% of the leaf / DateYYYYMMDD values are natives of unusual but legitimate types (scalars_g6.random_exotic, mostly suiting the "
         "leaf's kind, padded with ASCII / non-ASCII whitespace; U+0085 / U+2028 / U+2029 paddings left to C04: the driver output of this "
-        "check carries raw text lines); bytes are not handed to Date / Time / DateTime / DateYYYYMMDD (KF-C04-e: set() raises TypeError)",
+        "check carries raw text lines); bytes / bytearray reach Date / Time / DateTime / DateYYYYMMDD leaves too (unadaptable since 6d1d953)",
         "field names of a Dict are texts, distinct (Dict.of enforces it); 'strict' policy not combined with SparseDict",
         "the element's history before the set() of the property: set() on the element, set_flat() ('_' separator, keys from the "
         "schema's flattened names), a member's own set() at any path, item assignment with native values on Dict / SparseDict / "
@@ -998,6 +993,9 @@ class C03(Property):
                              ["d", {"dt": [2020, 1, 2, 3, 4, 5, 0]}]]}},
             {"schema": D([S_("when", 9), comp("d")]), "kinds": xk,
              "value": [[{"s": "when"}, X(S.DateSub(2020, 1, 2, " the day "))], [{"s": "d"}, X(S.DateSub(2020, 2, 29, "x"))]]},
+            # fixed 6d1d953 (KF-C04-e): bytes handed to temporal leaves are rejected (False), they raised TypeError before
+            {"schema": D([S_("when", 9), S_("at", 10), comp("d")]), "kinds": xk,
+             "value": {"d": [["when", X(b"2020-01-02")], ["at", X(bytearray(b"03:04:05"))], ["d", X(b"2020-01-02")]]}},
         ]
         return [bool_partial, joined, pair_list, two_char, one_text, nt, dup_kept, dup_reset, date_garbage, date_dup, noprune,
                 int_key, list_key] + more + history + exotic
